@@ -8,78 +8,78 @@ CLAIMS = {
             "Every obligation carrying the property is generated from the current source of the folding functions and discharged by an SMT solver for all int32 operand pairs; counter-models are replayed on the real function.",
             "Trusted: pyvc's encoding of Python (DESIGN §2.1, CPython differential self-test), spec S1 (spec/arith32.py), CPython's int(text, base) for literal parsing, z3/cvc5.",
             "DESIGN §4 C11"),
-    "C01": ("other", "contract chain K1..K9: pyvc VCs on the real folding/lowering functions (P) + bounded end-to-end validation of the real pipeline's blueprint (S2 circuit model) against the S3 source semantics by SMT over all int32 inputs (B)",
-            "P obligations are discharged for all inputs; the program-shape quantifier is covered only by an enumerated scope (bounded stand-in, labelled, never counted as proved).",
-            "Trusted: S1/S2/S3 specs, pyvc encoding, composition lemma; known findings KF-K7-crosstalk and KF-C01-comparison-result-type are reported, not suppressed silently.",
-            "DESIGN §4 C01"),
-    "C10": ("other", "relational pair lemma on the real CSE key functions + VCs on IR folding (pyvc, unbounded) + bounded optimised-vs-unoptimised validation against S3 by SMT",
-            "Key injectivity (equal keys => equal operator, operands, output type, output mode) is proved for every pair of paths of the real _make_key/_value_key; whole-pass behaviour is checked on an enumerated scope (bounded).",
+    "C01": ('other', "contract chain K1..K9: pyvc VCs on the real lowering functions (lower_binary_op for all 19 operators as induction step over the expression tree, unary/comparison/logical lowerers, _is_boolean_producer), folding functions, the CSE key lemma and constant liveness (K4) and the decider/arithmetic emission (K8) (P) + bounded end-to-end validation of the real pipeline's blueprint (S2 circuit model) against the S3 source semantics by SMT over all int32 inputs (B)",
+            'P obligations are discharged for all inputs; the program-shape quantifier is covered only by an enumerated scope (bounded stand-in, labelled, never counted as proved).',
+            'Trusted: S1/S2/S3 specs, pyvc encoding, composition lemma; ASSUMED contracts inside the chain (logical-chain folding, wire merge, IR builder constructors, draftsman constructors) are listed in the evidence; the wire-colour planner (K7) is not under contract; known findings are reported, not suppressed silently.',
+            'DESIGN §4 C01'),
+    "C10": ('other', 'relational pair lemma on the real CSE key functions + VCs on IR folding + liveness contract on _maybe_mark_dead (every reader kind; bounded list length) with its call-site precondition (pyvc) + bounded optimised-vs-unoptimised validation against S3 by SMT',
+            'Key injectivity (equal keys => equal operator, operands, output type, output mode) is proved for every pair of paths of the real _make_key/_value_key; whole-pass behaviour is checked on an enumerated scope (bounded).',
             "Trusted: f-strings modelled as tuples, S1/S2/S3, composition lemma, 'any spanning tree induces the same partition'.",
-            "DESIGN §4 C10"),
+            'DESIGN §4 C10'),
     "C02": ("other", "pair lemma on the real CSE key (pyvc) + bounded end-to-end validation of the real pipeline's blueprint (S2 circuit model) against the S3 source semantics by SMT over all int32 inputs, on an enumerated scope of programs (every signal on each bundle anchor compared)",
             "Contract-based P obligations where listed are discharged for all inputs; the program-shape quantifier is covered by a bounded stand-in (enumerated scope, labelled bounded, never counted as proved).",
             "Trusted: S1/S2/S3 specs, pyvc encoding, composition lemma (DESIGN §3.3); known findings are reported as KNOWN-FINDING lines.",
             'DESIGN §4 C02'),
-    "C06": ("other", "bounded end-to-end validation of the real pipeline's blueprint (S2 circuit model) against the S3 source semantics by SMT over all int32 inputs, on an enumerated scope of programs (entity circuit conditions vs enable > 0, chest contents as free inputs)",
-            "Contract-based P obligations where listed are discharged for all inputs; the program-shape quantifier is covered by a bounded stand-in (enumerated scope, labelled bounded, never counted as proved).",
-            "Trusted: S1/S2/S3 specs, pyvc encoding, composition lemma (DESIGN §3.3); known findings are reported as KNOWN-FINDING lines.",
+    "C06": ('other', 'P contract on the real EntityPlacer._try_inline_comparison (inlines only `signal CMP constant -> 1` deciders without other consumers) + bounded end-to-end validation (entity circuit conditions vs enable > 0 by SMT for all int32 inputs, chest contents free)',
+            'Contract-based P obligations where listed are discharged for all inputs; the program-shape quantifier is covered by a bounded stand-in (enumerated scope, labelled bounded, never counted as proved).',
+            'Trusted: S1/S2/S3 specs, pyvc encoding, composition lemma (DESIGN §3.3); known findings are reported as KNOWN-FINDING lines.',
             'DESIGN §4 C06'),
     "C09": ("other", "pyvc VCs on coordinate constant extraction + bounded end-to-end validation of the real pipeline's blueprint (S2 circuit model) against the S3 source semantics by SMT over all int32 inputs, on an enumerated scope of programs (multiset of user entities by prototype and top-left tile)",
             "Contract-based P obligations where listed are discharged for all inputs; the program-shape quantifier is covered by a bounded stand-in (enumerated scope, labelled bounded, never counted as proved).",
             "Trusted: S1/S2/S3 specs, pyvc encoding, composition lemma (DESIGN §3.3); known findings are reported as KNOWN-FINDING lines.",
             'DESIGN §4 C09'),
-    "C12": ("other", "bounded end-to-end validation of the real pipeline's blueprint (S2 circuit model) against the S3 source semantics by SMT over all int32 inputs, on an enumerated scope of programs over all order-preserving interleavings of pairs of independent computations",
-            "Contract-based P obligations where listed are discharged for all inputs; the program-shape quantifier is covered by a bounded stand-in (enumerated scope, labelled bounded, never counted as proved).",
-            "Trusted: S1/S2/S3 specs, pyvc encoding, composition lemma (DESIGN §3.3); known findings are reported as KNOWN-FINDING lines.",
+    "C12": ('other', 'P: relay network-id invariant (RelayNode), signal allocation, CSE key lemma (independent computations are never identified) + bounded end-to-end validation over all order-preserving interleavings of pairs of independent computations (SMT, all int32 inputs)',
+            'Contract-based P obligations where listed are discharged for all inputs; the program-shape quantifier is covered by a bounded stand-in (enumerated scope, labelled bounded, never counted as proved).',
+            'Trusted: S1/S2/S3 specs, pyvc encoding, composition lemma (DESIGN §3.3); known findings are reported as KNOWN-FINDING lines.',
             'DESIGN §4 C12'),
-    "C13": ("other", "bounded end-to-end validation of the real pipeline's blueprint (S2 circuit model) against the S3 source semantics by SMT over all int32 inputs, on an enumerated scope of programs plus freshness of every compiler-chosen signal against explicit / wildcard / reserved names",
-            "Contract-based P obligations where listed are discharged for all inputs; the program-shape quantifier is covered by a bounded stand-in (enumerated scope, labelled bounded, never counted as proved).",
-            "Trusted: S1/S2/S3 specs, pyvc encoding, composition lemma (DESIGN §3.3); known findings are reported as KNOWN-FINDING lines.",
+    "C13": ('other', 'P contract on the real signal allocator + bounded end-to-end validation plus freshness of every compiler-chosen signal against explicit / wildcard / reserved names',
+            'Contract-based P obligations where listed are discharged for all inputs; the program-shape quantifier is covered by a bounded stand-in (enumerated scope, labelled bounded, never counted as proved).',
+            'Trusted: S1/S2/S3 specs, pyvc encoding, composition lemma (DESIGN §3.3); known findings are reported as KNOWN-FINDING lines.',
             'DESIGN §4 C13'),
-    "C15": ("other", "pyvc VCs on constant resolution + bounded end-to-end validation of the real pipeline's blueprint (S2 circuit model) against the S3 source semantics by SMT over all int32 inputs, on an enumerated scope of programs with S3's substitution semantics for calls",
-            "Contract-based P obligations where listed are discharged for all inputs; the program-shape quantifier is covered by a bounded stand-in (enumerated scope, labelled bounded, never counted as proved).",
-            "Trusted: S1/S2/S3 specs, pyvc encoding, composition lemma (DESIGN §3.3); known findings are reported as KNOWN-FINDING lines.",
+    "C15": ('other', "P contract on the real ExpressionLowerer._resolve_constant_symbol (lexical scoping of names during inlining) + constant extraction VCs + bounded end-to-end validation against S3's substitution semantics for calls (SMT, all int32 inputs)",
+            'Contract-based P obligations where listed are discharged for all inputs; the program-shape quantifier is covered by a bounded stand-in (enumerated scope, labelled bounded, never counted as proved).',
+            'Trusted: S1/S2/S3 specs, pyvc encoding, composition lemma (DESIGN §3.3); known findings are reported as KNOWN-FINDING lines.',
             'DESIGN §4 C15'),
     "C20": ("other", "bounded end-to-end validation of the real pipeline's blueprint (S2 circuit model) against the S3 source semantics by SMT over all int32 inputs, on an enumerated scope of programs (every S3 output name must have its anchor / labelled constant carrying exactly its value)",
             "Contract-based P obligations where listed are discharged for all inputs; the program-shape quantifier is covered by a bounded stand-in (enumerated scope, labelled bounded, never counted as proved).",
             "Trusted: S1/S2/S3 specs, pyvc encoding, composition lemma (DESIGN §3.3); known findings are reported as KNOWN-FINDING lines.",
             'DESIGN §4 C20'),
-    "C03": ("other", "bounded tick-level simulation of the real pipeline's blueprint (S2 model) against the S3 gated-cell semantics over enumerated held-input histories",
-            "Bounded stand-in only (labelled bounded, never counted as proved): the DESIGN's template lemmas by SMT induction over ticks were not built; see DESIGN §4.",
-            "Trusted: S2 tick model, S3 memory semantics; bounded histories / tick counts / value pools as printed in the evidence.",
-            "DESIGN §4 C03"),
-    "C04": ("other", 'bounded tick-level simulation (S2 model) from the all-zero state against the iteration equation value(t+L) = f(value(t)) with f from S3',
-            "Bounded stand-in only (labelled bounded, never counted as proved): the DESIGN's template lemmas by SMT induction over ticks were not built; see DESIGN §4.",
-            "Trusted: S2 tick model, S3 memory semantics; bounded histories / tick counts / value pools as printed in the evidence.",
-            "DESIGN §4 C04"),
-    "C05": ("other", 'bounded tick-level simulation (S2 model) against the S3 latch state machine (set/reset/hold/priority) over enumerated held-input histories',
-            "Bounded stand-in only (labelled bounded, never counted as proved): the DESIGN's template lemmas by SMT induction over ticks were not built; see DESIGN §4.",
-            "Trusted: S2 tick model, S3 memory semantics; bounded histories / tick counts / value pools as printed in the evidence.",
-            "DESIGN §4 C05"),
+    "C03": ('other', 'P contract on the real MemoryLowerer._lower_standard_write (write enable on the reserved signal, all paths) + template lemmas (cover/base/step over the S2 one-tick function of the emitted blueprint, decided by SMT for all data values and single-input changes; induction over the history) + bounded tick simulation against the S3 gated-cell semantics',
+            'The P contract is discharged for all inputs; template lemmas are decided by SMT per program of an enumerated scope (all values / all histories whose steps are held K ticks), reported in the bounded section because the program-shape quantifier is enumerated; the tick simulation is a bounded stand-in.',
+            'Trusted: S2 tick model, S3 memory semantics, induction over the history as paper argument; bounded: program scope, history lengths / pools of the simulation as printed in the evidence.',
+            'DESIGN §4 C03'),
+    "C04": ('other', 'P contract on the real MemoryBuilder._is_always_write + iteration template lemma (for every state and constant inputs reader(step^L(s)) == f(reader(s)), by SMT) + bounded tick simulation from the all-zero state',
+            'The P contract is discharged for all inputs; the iteration lemma is decided by SMT per program of an enumerated scope (all states, all inputs), reported in the bounded section; the tick simulation is a bounded stand-in.',
+            'Trusted: S2 tick model, S3 memory semantics; the latency L is found by simulation and then proved.',
+            'DESIGN §4 C04'),
+    "C05": ('other', "P contracts on the real MemoryBuilder._handle_latch_write_inlined (the rows encode the set/reset/hold machine with the stated priority for all 36 comparator pairs x 2 priorities x all thresholds x all inputs), _invert_comparison and the parser's argument-order rules + template lemmas (SMT, all values / histories) + bounded tick simulation against the S3 latch machine",
+            'P contracts are discharged for all inputs; template lemmas per program of an enumerated scope are decided by SMT and reported in the bounded section; the tick simulation is a bounded stand-in.',
+            'Trusted: S2 row semantics (AND binds tighter than OR), S3 latch semantics, emission of the rows (contracts.c07 on _configure_decider_multi_condition); the non-inlined latch path is covered by lemmas / simulation only.',
+            'DESIGN §4 C05'),
     "C14": ("other", "exceptional postconditions on the real diagnostics / symbol-table functions (pyvc, unbounded) + bounded embedding of rule violations into accepted hosts through the real compile_dsl_source",
             "Abort-on-error and scoping primitives are proved for all inputs; the rule x embedding quantifier is covered by an enumerated scope (bounded stand-in).",
             "Trusted: pyvc encoding; Lark reports syntax errors as exceptions; bounded: 22 rules x snippets x embeddings.",
             "DESIGN §4 C14"),
-    "C07": ("other", "bounded matrix of real CLI subprocess invocations; emitted text decoded with the standard library and executed by the S2 circuit model against S3 by SMT for all inputs",
-            "Bounded stand-in (labelled bounded): programs x invocation modes; per decoded blueprint the input quantifier is decided by SMT.",
-            "Trusted: base64/zlib/json, S2/S3; draftsman's 2.0 converter is lossless for the fields the emitter sets.",
-            "DESIGN §4 C07"),
-    "C17": ("other", "deductive verification of the library text: lib/math.facto parsed by the repo parser, evaluated by the S3 semantics to bit-vector terms and proved against the documented formulas by SMT for all int32 arguments; bounded enumeration of import graphs through the real pipeline",
-            "13 library obligations are discharged for all arguments in the documented domain; import behaviour is covered by an enumerated scope of import graphs (bounded stand-in).",
-            "Trusted: S3 as the meaning of Facto source (assumes C01), spec/libdocs.py as the meaning of the documentation, floor-division identity (self-checked).",
-            "DESIGN §4 C17"),
-    "C08": ("other", "bounded check of the real pipeline's blueprints against S4 prototype geometry (collision boxes, wire reach) and of relay isolation against the compiler's own signal graph",
+    "C07": ('other', "P contracts (K8) on the real PlanEntityEmitter._configure_decider / _configure_arithmetic / _configure_decider_multi_condition (emitted conditions mean the placement's comparison, wire selections kept) + AST call-site obligations on every export call (version=blueprint.version_tuple()) + bounded matrix of real CLI subprocess invocations whose text is decoded and executed by S2 against S3",
+            'P obligations are discharged for all operands / comparators; the CLI matrix is a bounded stand-in (programs x invocation modes; per decoded blueprint the input quantifier is decided by SMT).',
+            "Trusted: base64/zlib/json, S2/S3; ASSUMED: draftsman's Condition/Output/CircuitNetworkSelection constructors store their arguments, its 2.0 converter is lossless for the fields the emitter sets.",
+            'DESIGN §4 C07'),
+    "C17": ('other', 'deductive verification of the library text: lib/math.facto parsed by the repo parser, evaluated by the S3 semantics to bit-vector terms and proved against the documented formulas by SMT for all int32 arguments; P contract on name resolution inside inlined bodies; bounded enumeration of import graphs through the real pipeline',
+            '13 library obligations are discharged for all arguments in the documented domain; import behaviour is covered by an enumerated scope of import graphs (bounded stand-in).',
+            'Trusted: S3 as the meaning of Facto source (assumes C01), spec/libdocs.py as the meaning of the documentation, floor-division identity (self-checked).',
+            'DESIGN §4 C17'),
+    "C08": ('other', "P: RelayNode / TileGrid invariants and the relay-reuse guard (AST control dependence) + bounded check of the real pipeline's blueprints against S4 prototype geometry (collision boxes, wire reach) and of relay isolation against the compiler's own signal graph",
             "Bounded stand-in (labelled bounded): programs x option sets; CP-SAT's own nondeterminism is not enumerated.",
-            "Trusted: game data shipped with draftsman, Euclidean centre distance for wire length.",
-            "DESIGN §4 C08"),
+            'Trusted: game data shipped with draftsman, Euclidean centre distance for wire length.',
+            'DESIGN §4 C08'),
     "C18": ("other", "bounded check of the real pipeline's blueprints with --power-poles T against S4 (supply areas, copper reach, energy sources)",
             "Bounded stand-in; on the pinned tree per-consumer coverage and grid connectivity are recorded known findings (KF-C18-*), while coverage collapse, missing grid, over-long copper wires and stray poles are violations.",
             "Trusted: game data shipped with draftsman.",
             "DESIGN §4 C18"),
-    "C16": ("other", "contract-based deductive verification (pyvc VCs with inductive loop invariants + variants on the real ForStmt.get_iteration_values) plus bounded stand-ins for the lowering plumbing",
-            "The iteration sequence is proved for all (start, stop, step) and list iterators; the per-iteration scoping in the analyzer/lowerer is checked by bounded stand-ins, labelled as such.",
+    "C16": ('other', 'contract-based deductive verification (pyvc VCs with inductive loop invariants + variants on the real ForStmt.get_iteration_values; name resolution contract for iterators) plus bounded stand-ins for the lowering plumbing',
+            'The iteration sequence is proved for all (start, stop, step) and list iterators; the per-iteration scoping in the analyzer/lowerer is checked by bounded stand-ins, labelled as such.',
             "Trusted: pyvc encoding, composition lemma, 'IR equal up to fresh ids => same circuit'.",
-            "DESIGN §4 C16"),
+            'DESIGN §4 C16'),
 }
 
 NOT_APPLICABLE = {
